@@ -16,6 +16,7 @@ use std::future::Future;
 //@ include spec/keys.rs
 //@ include spec/errors.rs
 //@ include prelude/hex.rs
+//@ include prelude/std_extra2.rs
 //@ include prelude/http.rs
 //@ include spec/creq.rs
 //@ include spec/auth.rs
